@@ -867,6 +867,17 @@ func probeQueries() []query {
 	} {
 		out = append(out, query{text: t, note: fmt.Sprintf("probe-literal-in-fragment-twin-%d", i), group: "literal-in-fragment-twins"})
 	}
+	// operations that differ only in where the list / non-null wrappers of a
+	// variable's type sit (all usable in the same argument position): absent,
+	// null and null-holding values are coerced differently by each
+	for i, t := range []string{"[String]", "[String]!", "[String!]", "[String!]!"} {
+		out = append(out, query{text: "query Q($v: " + t + ") { k: l(a: $v) }", op: "Q", note: fmt.Sprintf("probe-variable-type-twin-%d", i), group: "variable-type-twins",
+			varsets: []map[string]interface{}{{}, {"v": nil}, {"v": []interface{}{"a", nil}}, {"v": []interface{}{"a"}}, {"v": "single"}}})
+	}
+	for i, t := range []string{"[[String]]", "[[String]!]", "[[String]]!", "[[String!]]", "[[String!]!]!"} {
+		out = append(out, query{text: "query Q($v: " + t + ") { k: ll(a: $v) }", op: "Q", note: fmt.Sprintf("probe-variable-type-twin2-%d", i), group: "variable-type-twins2",
+			varsets: []map[string]interface{}{{}, {"v": []interface{}{nil}}, {"v": []interface{}{[]interface{}{"a", nil}}}, {"v": []interface{}{[]interface{}{"a"}}}}})
+	}
 	// one fragment spread several times, the spreads differing in their directives
 	for i, body := range []string{
 		"...G ...G", "...G @skip(if: true) ...G", "...G ...G @skip(if: true)", "...G @skip(if: true) ...G @skip(if: true)",
